@@ -229,14 +229,18 @@ def run_check(prop: str, tier: str, root: Path, fn) -> int:
     try:
         explanation, trusted = fn(rep)
         return finish(rep, explanation, trusted)
-    except FloorError as e:
+    except AnalysisError as e:
+        # a rule could not be decided.  Findings made before that point were each established on their own (every rule checks the
+        # anchors of the model it uses before it judges anything) and are reported; without findings the answer is "undecided".
         known = {f["key"] for f in load_known().get("findings", []) if f.get("property") == prop}
         if any(not o.ok and o.key not in known for o in rep.obs):
             rep.note(f"analysis stopped early: {e}")
             return finish(rep, f"incomplete run ({e}); the findings made before that point are reported", [])
         print(f"ANALYSIS-ERROR property={prop}: {e}")
+        if os.environ.get("PYAB_VERIF_VERBOSE"):
+            traceback.print_exc()
         return 2
-    except AnalysisError as e:
+    except AnalysisError as e:      # (not reached: kept for clarity)
         print(f"ANALYSIS-ERROR property={prop}: {e}")
         if os.environ.get("PYAB_VERIF_VERBOSE"):
             traceback.print_exc()
